@@ -131,8 +131,9 @@ func TypedValue.Compute#sequential
   opt sequential
   requires t != nil && t.kv != nil && unlocked(t.mutex)
   callback computeFunc(cur, ex) (nv, cerr)
-    ensures ex <==> sel(kvHas, content(t.keyBytes))
-    ensures ex ==> agrees(cur, sel(kvVal, content(t.keyBytes)))
+    -- the function is shown the key's current state: presence, and the value the stored bytes stand for
+    requires ex <==> sel(kvHas, content(t.keyBytes))
+    requires ex ==> agrees(cur, sel(kvVal, content(t.keyBytes)))
     ghost at return: computed = nv
     ghost at return: computeFailed = (cerr != nil)
     ghost at return: computeCalled = true
